@@ -660,6 +660,251 @@ def walk_shape(fn: ast.FunctionDef, cls: ast.ClassDef, env: dict | None = None, 
     return what
 
 
+# ------------------------------------------------------------------------------------------------ listing methods called with arguments
+class _LRet(Exception):
+    def __init__(self, v):
+        self.v = v
+
+
+class _LKeyError(Exception):
+    pass
+
+
+class _LRun:
+    """A listing method executed with its extension / folder arguments bound to their defaults or to symbolic non-empty strings.
+    Values: ('c', python constant) | ('nest',) = self._fileinfo | ('L0', 'all'|'only'|'none') an iterable of folders dicts |
+    ('D1',) a folders dict | ('D1only', may_raise) the dict stored under the extension argument | ('L1', 'items'|'values'|'keys') |
+    ('dirname',) | ('D2',) a files dict | ('L2',) its values | ('info',) | ('prefix', negated?) = <dirname>.startswith(<folder argument>)."""
+    EXT, FOLDER = '\x01EXT', '\x01FOLDER'
+
+    def __init__(self, cls: ast.ClassDef):
+        self.cls = cls
+        self.sel = None
+        self.out: list[tuple[str, str, str]] = []
+
+    def ev(self, e, env: dict, depth: int = 0):
+        f = _fold(e, {k: v[1] for k, v in env.items() if v[0] == 'c'})
+        if f is not None and not (isinstance(e, ast.Name) and e.id not in env):
+            return f
+        if isinstance(e, ast.Name) and e.id in env:
+            return env[e.id]
+        if is_attr(e, is_self, '_fileinfo'):
+            return ('nest',)
+        if isinstance(e, ast.Dict) and not e.keys:
+            return ('emptydict',)
+        if isinstance(e, (ast.List, ast.Tuple)):
+            if not e.elts:
+                return ('L0', 'none')
+            if len(e.elts) == 1:
+                v = self.ev(e.elts[0], env, depth)
+                if v[0] == 'D1only':
+                    return ('L0', 'only')
+            raise TranslateError(f'line {e.lineno}: listing: sequence {ast.unparse(e)[:50]!r} not understood')
+        if isinstance(e, ast.Subscript):
+            b, k = self.ev(e.value, env, depth), self.ev(e.slice, env, depth)
+            if b == ('nest',) and k == ('c', self.EXT):
+                raise _LKeyError()          # may raise: the caller must be inside try/except KeyError; see run()
+        if isinstance(e, ast.UnaryOp) and isinstance(e.op, ast.Not):
+            v = self.ev(e.operand, env, depth)
+            if v[0] == 'prefix':
+                return ('prefix', not v[1])
+        if isinstance(e, ast.Call) and isinstance(e.func, ast.Attribute) and not e.keywords:
+            b = self.ev(e.func.value, env, depth) if not is_self(e.func.value) else ('self',)
+            args = [self.ev(a, env, depth) for a in e.args]
+            at = e.func.attr
+            if b == ('nest',) and at == 'values' and not args:
+                return ('L0', 'all')
+            if b == ('nest',) and at == 'get' and args == [('c', self.EXT), ('emptydict',)]:
+                return ('D1only',)
+            if b == ('D1',) and at in ('items', 'values', 'keys') and not args:
+                return ('L1', at)
+            if b == ('D2',) and at == 'values' and not args:
+                return ('L2',)
+            if b == ('dirname',) and at == 'startswith' and args == [('c', self.FOLDER)]:
+                return ('prefix', False)
+            if b == ('self',) and depth < 2:
+                h = find_def(self.cls.body, ast.FunctionDef, at)
+                params = [a.arg for a in h.args.posonlyargs + h.args.args][1:]
+                if len(params) == len(args):
+                    try:
+                        self.run(fn_body(h), dict(zip(params, args)), depth + 1)
+                    except _LRet as r:
+                        return r.v
+        raise TranslateError(f'line {getattr(e, "lineno", "?")}: listing: expression {ast.unparse(e)[:60]!r} not understood')
+
+    def run(self, stmts, env: dict, depth: int = 0, dfilter: str = 'DAll') -> str:
+        """returns the folder filter in force after the statements (an `if not <prefix test>: continue` narrows the rest of a loop body)"""
+        for s in stmts:
+            if (isinstance(s, ast.Expr) and isinstance(s.value, ast.Constant)) or isinstance(s, ast.Pass) or (isinstance(s, ast.AnnAssign) and s.value is None):
+                continue
+            if isinstance(s, ast.Return):
+                raise _LRet(('c', None) if s.value is None else self.ev(s.value, env, depth))
+            if isinstance(s, ast.Try) and len(s.handlers) == 1 and not s.orelse and not s.finalbody and ast.unparse(s.handlers[0].type) == 'KeyError' \
+                    and len(s.body) == 1 and isinstance(s.body[0], ast.Return) and isinstance(s.body[0].value, (ast.List, ast.Tuple)) \
+                    and len(s.body[0].value.elts) == 1:
+                # try: return [self._fileinfo[ext]]  except KeyError: return ()   ==  the dict under the key, nothing when it is missing
+                try:
+                    self.ev(s.body[0].value.elts[0], env, depth)
+                    raise TranslateError(f'line {s.lineno}: listing: try body not understood')
+                except _LKeyError:
+                    pass
+                try:
+                    self.run(s.handlers[0].body, env, depth, dfilter)
+                except _LRet as r:
+                    if r.v == ('L0', 'none'):
+                        raise _LRet(('L0', 'only'))
+                raise TranslateError(f'line {s.lineno}: listing: KeyError handler not understood')
+            if isinstance(s, ast.Assign) and len(s.targets) == 1 and isinstance(s.targets[0], ast.Name):
+                env[s.targets[0].id] = self.ev(s.value, env, depth)
+                continue
+            if isinstance(s, ast.AnnAssign) and isinstance(s.target, ast.Name):
+                env[s.target.id] = self.ev(s.value, env, depth)
+                continue
+            if isinstance(s, ast.If):
+                t = self.ev(s.test, env, depth)
+                if t[0] == 'c':
+                    dfilter = self.run(s.body if t[1] else s.orelse, env, depth, dfilter)
+                    continue
+                if t[0] == 'prefix' and dfilter == 'DAll':
+                    only_continue = lambda b: len(b) == 1 and isinstance(b[0], ast.Continue)
+                    if t[1] and only_continue(s.body) and not s.orelse:        # if not d.startswith(folder): continue
+                        dfilter = 'DPrefix'
+                        continue
+                    if not t[1] and not s.orelse and not only_continue(s.body):   # if d.startswith(folder): <walk>
+                        self.run(s.body, env, depth, 'DPrefix')
+                        continue
+                    if not t[1] and only_continue(s.body) and not s.orelse:    # the filter inverted
+                        dfilter = 'DOtherSel'
+                        continue
+                raise TranslateError(f'line {s.lineno}: listing: test {ast.unparse(s.test)[:60]!r} not understood')
+            # delegation to another listing method: `for x in self.<method>(<arguments>): yield x[.filename]` / `yield from self.<method>(...)`
+            dcall = s.iter if isinstance(s, ast.For) else s.value.value if isinstance(s, ast.Expr) and isinstance(s.value, ast.YieldFrom) else None
+            if isinstance(dcall, ast.Call) and isinstance(dcall.func, ast.Attribute) and is_self(dcall.func.value) and depth < 2 and self.sel is None:
+                try:
+                    m = find_def(self.cls.body, ast.FunctionDef, dcall.func.attr)
+                except TranslateError:
+                    m = None
+                if m is not None and any(isinstance(n, (ast.Yield, ast.YieldFrom)) for n in ast.walk(m)):
+                    leaf_ok = isinstance(s, ast.Expr)
+                    to_names = False
+                    if isinstance(s, ast.For) and isinstance(s.target, ast.Name) and not s.orelse and len(s.body) == 1 and isinstance(s.body[0], ast.Expr) \
+                            and isinstance(s.body[0].value, ast.Yield) and s.body[0].value.value is not None:
+                        y = s.body[0].value.value
+                        to_names = isinstance(y, ast.Attribute) and y.attr == 'filename' and is_name(y.value, s.target.id)
+                        leaf_ok = is_name(y, s.target.id) or to_names
+                    mparams = [a.arg for a in m.args.posonlyargs + m.args.args][1:]
+                    kwonly = [a.arg for a in m.args.kwonlyargs]
+                    menv = {k: ('c', v) for k, v in _defaults(m, partial=True).items()}
+                    if leaf_ok and len(dcall.args) <= len(mparams) and all(k.arg in mparams + kwonly for k in dcall.keywords):
+                        for nm, a in list(zip(mparams, dcall.args)) + [(k.arg, k.value) for k in dcall.keywords]:
+                            menv[nm] = self.ev(a, env, depth)
+                        if all(q in menv for q in mparams + kwonly):
+                            n0 = len(self.out)
+                            try:
+                                self.run(fn_body(m), menv, depth + 1)
+                            except _LRet:
+                                pass
+                            if to_names:       # the FileInfo objects of the inner method, turned into their listed names
+                                self.out[n0:] = [(a, b, 'names' if k == 'infos' else 'other') for a, b, k in self.out[n0:]]
+                            continue
+            if isinstance(s, ast.For) and not s.orelse:
+                it = self.ev(s.iter, env, depth)
+                if it[0] == 'L0' and isinstance(s.target, ast.Name) and self.sel is None:
+                    self.sel = it[1]
+                    if it[1] != 'none':
+                        self.run(s.body, {**env, s.target.id: ('D1',)}, depth, dfilter)
+                    continue
+                if it == ('L1', 'items') and isinstance(s.target, ast.Tuple) and len(s.target.elts) == 2 and all(isinstance(x, ast.Name) for x in s.target.elts):
+                    self.run(s.body, {**env, s.target.elts[0].id: ('dirname',), s.target.elts[1].id: ('D2',)}, depth, dfilter)
+                    continue
+                if it == ('L1', 'values') and isinstance(s.target, ast.Name):
+                    self.run(s.body, {**env, s.target.id: ('D2',)}, depth, dfilter)
+                    continue
+                if it == ('L2',) and isinstance(s.target, ast.Name) and self.is_extract_leaf(s.body, s.target.id, env):
+                    self.out.append((self.sel, dfilter, 'extract'))
+                    continue
+                if it == ('L2',) and isinstance(s.target, ast.Name) and len(s.body) == 1 and isinstance(s.body[0], ast.Expr) \
+                        and isinstance(s.body[0].value, ast.Yield) and s.body[0].value.value is not None:
+                    y = s.body[0].value.value
+                    if is_name(y, s.target.id):
+                        self.out.append((self.sel, dfilter, 'infos'))
+                        continue
+                    if isinstance(y, ast.Attribute) and y.attr == 'filename' and is_name(y.value, s.target.id):
+                        self.out.append((self.sel, dfilter, 'names'))
+                        continue
+            if isinstance(s, ast.Expr) and isinstance(s.value, ast.YieldFrom) and self.ev(s.value.value, env, depth) == ('L2',):
+                self.out.append((self.sel, dfilter, 'infos'))
+                continue
+            if isinstance(s, ast.Expr) and isinstance(s.value, ast.Call) and ast.unparse(s.value.func) == 'os.makedirs':
+                continue        # creates a directory on disk: no effect on what is walked
+            raise TranslateError(f'line {s.lineno}: listing: statement {ast.unparse(s)[:60]!r} not understood')
+        return dfilter
+
+    DEST = '\x01DEST'
+
+    def is_extract_leaf(self, body, info: str, env: dict) -> bool:
+        """with open(os.path.join(<destination argument>, <info>.filename), 'wb') as f: f.write(<info>.read())"""
+        if len(body) != 1 or not isinstance(body[0], ast.With) or len(body[0].items) != 1 or not isinstance(body[0].items[0].optional_vars, ast.Name):
+            return False
+        w = body[0]
+        f = w.items[0].optional_vars.id
+        o = w.items[0].context_expr
+        if not (isinstance(o, ast.Call) and is_name(o.func, 'open') and len(o.args) == 2 and not o.keywords and isinstance(o.args[1], ast.Constant) and o.args[1].value == 'wb'):
+            return False
+        j = o.args[0]
+        if not (isinstance(j, ast.Call) and ast.unparse(j.func) == 'os.path.join' and len(j.args) == 2 and not j.keywords and isinstance(j.args[0], ast.Name)
+                and env.get(j.args[0].id) == ('c', self.DEST) and ast.unparse(j.args[1]) == f'{info}.filename'):
+            return False
+        return len(w.body) == 1 and isinstance(w.body[0], ast.Expr) and ast.unparse(w.body[0].value) == f'{f}.write({info}.read())'
+
+
+def extract_walk(fn: ast.FunctionDef, cls: ast.ClassDef) -> tuple[str, str, bool]:
+    """extract_all executed: the walk it performs, and whether every FileInfo met is written as <destination>/<its listed name> with the
+    bytes read() returns"""
+    params = [a.arg for a in fn.args.posonlyargs + fn.args.args][1:]
+    if len(params) != 1:
+        return 'EOtherSel', 'DOtherSel', False
+    r = _LRun(cls)
+    try:
+        try:
+            r.run(fn_body(fn), {params[0]: ('c', _LRun.DEST)})
+        except _LRet:
+            pass
+    except (TranslateError, _LKeyError):
+        return 'EOtherSel', 'DOtherSel', False
+    if len(r.out) == 1 and r.out[0][2] == 'extract':
+        return {'all': 'EAll', 'only': 'EOnly'}.get(r.out[0][0], 'EOtherSel'), r.out[0][1], True
+    return 'EOtherSel', 'DOtherSel', False
+
+
+def listing_with_arguments(fn: ast.FunctionDef, cls: ast.ClassDef, leaf: str) -> list[tuple[bool, bool, str, str, bool]]:
+    """(extension given?, folder given?, ext_sel, dir_sel, every file of a visited folder is yielded) for the four combinations"""
+    params = [a.arg for a in fn.args.posonlyargs + fn.args.args + fn.args.kwonlyargs][1:]
+    dflt = _defaults(fn)
+    if sorted(params) != ['ext', 'folder']:
+        raise TranslateError(f'{fn.name}: parameters (ext, folder) expected')
+    out = []
+    for eg in (False, True):
+        for fg in (False, True):
+            r = _LRun(cls)
+            env = {'ext': ('c', _LRun.EXT if eg else dflt['ext']), 'folder': ('c', _LRun.FOLDER if fg else dflt['folder'])}
+            try:
+                try:
+                    r.run(fn_body(fn), env)
+                except _LRet:
+                    pass
+                if r.sel == 'none' and not r.out:
+                    out.append((eg, fg, 'EOtherSel', 'DAll', True))
+                elif len(r.out) == 1 and r.out[0][2] == leaf:
+                    sel, df, _ = r.out[0]
+                    out.append((eg, fg, {'all': 'EAll', 'only': 'EOnly'}.get(sel, 'EOtherSel'), df, True))
+                else:
+                    out.append((eg, fg, 'EOtherSel', 'DOtherSel', False))
+            except (TranslateError, _LKeyError) as e:
+                out.append((eg, fg, 'EOtherSel', 'DOtherSel', False))
+    return out
+
+
 # ------------------------------------------------------------------------------------------------ the translator
 def translate() -> tuple[str, dict]:
     tree = ast.parse(src_text('vpk.py'))
@@ -692,18 +937,25 @@ def translate() -> tuple[str, dict]:
                 if w:
                     others[f'{cls.name}.{f.name}'] = w
     lr_ok, lr_why = load_resets(find_def(vpk.body, ast.FunctionDef, 'load_dirfile'))
+    lwalks = {nm: listing_with_arguments(find_def(vpk.body, ast.FunctionDef, nm), vpk, leaf) for nm, leaf in (('filenames', 'names'), ('fileinfos', 'infos'))}
     walks = {}
     for nm, want in (('__iter__', 'infos'), ('__len__', 'count'), ('filenames', 'names'), ('fileinfos', 'infos')):
         try:
             walks[nm] = (walk_shape(find_def(vpk.body, ast.FunctionDef, nm), vpk), want)
         except TranslateError as e:       # a shape that is not understood is a failed (named) obligation, not a failed translation
-            walks[nm] = (f'not understood: {e}', want)
-    side = {'mode_table': mt, 'exit_table': rows, 'guarded': sorted(guarded), 'fileinfo_write_guarded': fw_ok, 'check_writable_def': chk_def,
+            # the executor of the listing methods with arguments understands more spellings (helpers with try/except, early returns):
+            # its run with both arguments at their defaults decides the default walk as well
+            if any(r == (False, False, 'EAll', 'DAll', True) for r in lwalks.get(nm, [])):
+                walks[nm] = (want, want)
+            else:
+                walks[nm] = (f'not understood: {e}', want)
+    exw = extract_walk(find_def(vpk.body, ast.FunctionDef, 'extract_all'), vpk)
+    side = {'extract_all_walk': exw, 'listing_with_arguments': lwalks, 'mode_table': mt, 'exit_table': rows, 'guarded': sorted(guarded), 'fileinfo_write_guarded': fw_ok, 'check_writable_def': chk_def,
             'other_mutating_methods': others, 'load_resets': lr_ok, 'load_resets_problems': lr_why, 'walks': {k: v[0] for k, v in walks.items()},
             'digests': {nm: ast_digest(f) for nm, f in fns.items()}}
     lines = [
         '(* GENERATED by translate/c13_api.py from /repo/src/srctools/vpk.py. Do not edit. *)',
-        'From Coq Require Import List NArith Bool.', 'From SV Require Import SM.Vpk SM.VpkApi.', 'Import ListNotations.', 'Open Scope N_scope.',
+        'From Coq Require Import List NArith Bool.', 'From SV Require Import SM.Vpk SM.VpkApi SM.VpkListing.', 'Import ListNotations.', 'Open Scope N_scope.',
         f'Definition g_writable_r : bool := {_b(mt["r"])}.', f'Definition g_writable_w : bool := {_b(mt["w"])}.', f'Definition g_writable_a : bool := {_b(mt["a"])}.',
         '(* VPK.__exit__: (no exception, mode writable, calls of write_dirfile, returns a true value) *)',
         'Definition g_exit_table : list exit_row := [' + '; '.join(f'({_b(e)}, {_b(w)}, {c}, {_b(r)})' for e, w, c, r in rows) + '].',
@@ -719,6 +971,12 @@ def translate() -> tuple[str, dict]:
     ]
     for nm, (got, want) in walks.items():
         lines.append(f'Definition g_walk_{nm.strip("_")} : bool := {_b(got == want)}.')
+    lines.append('(* filenames / fileinfos executed with their arguments given or left at the default: (extension given, folder given, walk) *)')
+    for nm, rows in lwalks.items():
+        lines.append(f'Definition g_walks_{nm} : list (bool * bool * lwalk) := [' + '; '.join(
+            f'({_b(eg)}, {_b(fg)}, mkWalk {es} {ds} {_b(ev)})' for eg, fg, es, ds, ev in rows) + '].')
+    lines.append('(* extract_all executed: the walk, and "every FileInfo met is written to <destination>/<listed name> with the bytes of read()" *)')
+    lines.append(f'Definition g_extract_walk : lwalk := mkWalk {exw[0]} {exw[1]} {_b(exw[2])}.')
     lines.append('')
     return '\n'.join(lines), side
 
